@@ -272,6 +272,16 @@ class HighOrderMutator(FirstOrderMutator):
             yield applied_mutations, mutant
             self._finish_generators(generators)
 
+    def mutation_count(  # noqa: D102
+        self,
+        target_ast: ast.AST,
+        module: types.ModuleType,
+    ) -> int:
+        # A higher-order mutant combines up to ``order`` first-order mutations, so
+        # the number of mutants is the number of groups the strategy forms, not the
+        # number of first-order mutations counted by ``FirstOrderMutator``.
+        return Mutator.mutation_count(self, target_ast, module)
+
     def _generate_all_mutations(
         self,
         module: types.ModuleType,
